@@ -53,7 +53,98 @@ fn placements(units: &[U]) -> Vec<&'static str> {
     out
 }
 
+/// Two shapes in which a named occurrence and a word compete for one slot. Every 16th case runs one
+/// of them on a sentence and on the same occurrences with a named one moved.
+///  (a) `construct!([--input IN, IN])` followed by `OUT`: the input is given by name or by position
+///  (b) `construct!(--name N, P).many()`: a word inside a repeated group
+fn named_and_word_compete(case: &mut Case) {
+    let mut rng = case.rng(4);
+    let mk = |id: Id, names: Names, leaf: Leaf| {
+        Spec::Item(Item {
+            id,
+            names,
+            help: None,
+            leaf,
+        })
+    };
+    let arg = |id: Id, l: &str| {
+        mk(
+            id,
+            Names::long(l),
+            Leaf::Arg {
+                ty: Ty::Str,
+                metavar: format!("M{}", id),
+                adjacent: false,
+            },
+        )
+    };
+    let word = |id: Id| {
+        mk(
+            id,
+            Names::default(),
+            Leaf::Pos {
+                ty: Ty::Str,
+                metavar: format!("M{}", id),
+                strict: Strict::Any,
+            },
+        )
+    };
+    let eq = rng.chance(1, 2);
+    let name = |l: &str, v: &str| -> Vec<Vec<u8>> {
+        if eq {
+            vec![format!("--{}={}", l, v).into_bytes()]
+        } else {
+            vec![format!("--{}", l).into_bytes(), v.as_bytes().to_vec()]
+        }
+    };
+    let (spec, base, moved, sig): (OptSpec, Vec<Vec<u8>>, Vec<Vec<u8>>, &str) = if rng.chance(1, 2) {
+        let root = Spec::Seq(vec![Spec::Alt(vec![arg(1, "input"), word(2)]), word(3)]);
+        let mut base = name("input", "a");
+        base.push(b"b".to_vec());
+        let mut moved = vec![b"b".to_vec()];
+        moved.extend(name("input", "a"));
+        (OptSpec::plain(root), base, moved, "order-matters:named-or-positional-choice")
+    } else {
+        let root = Spec::Seq(vec![Spec::wrap(
+            W::Many { catch: false },
+            3,
+            Spec::Seq(vec![arg(1, "name"), word(2)]),
+        )]);
+        let mut base = name("name", "a");
+        base.push(b"x".to_vec());
+        base.extend(name("name", "b"));
+        base.push(b"y".to_vec());
+        let mut moved = name("name", "a");
+        moved.extend(name("name", "b"));
+        moved.push(b"x".to_vec());
+        moved.push(b"y".to_vec());
+        (OptSpec::plain(root), base, moved, "order-matters:word-inside-repeated-group")
+    };
+    let b = Bench::new(case, spec);
+    let (o_base, _) = b.run(case, &base, "named-and-word-compete");
+    let (o_moved, _) = b.run(case, &moved, "named-and-word-compete:moved");
+    case.rep.count("pairs");
+    let abnormal = |o: &Outcome| matches!(o, Outcome::Panic(_) | Outcome::FuelExhausted);
+    if !same(&o_base, &o_moved) && !abnormal(&o_base) && !abnormal(&o_moved) {
+        case.rep.violation(
+            sig,
+            "permutation",
+            case.index,
+            b.detail(
+                &moved,
+                "named-and-word-compete:moved",
+                &format!("the outcome of {}: {}", show_argv(&base).render(), o_base.show()),
+                &o_moved,
+            ),
+        );
+    }
+}
+
 pub fn run_case(case: &mut Case) {
+    if case.index % 16 == 9 {
+        named_and_word_compete(case);
+        return;
+    }
     let mut rng = case.rng(0);
     let mut spec = gen_options(&mut rng, opts());
     if rng.chance(1, 4) && super::c02::share_a_letter_between_commands(&mut spec, &mut rng) {
